@@ -8,21 +8,29 @@ clang-14 JSON AST of the BODIES of the small pure functions every property's mod
   Circuit::x, y, orientation, isFixed, isObstruction, area, placement, pinCell (shape check)
                                                                 (src/coloquinte.hpp)
   Circuit::placedWidth, placedHeight, pinXOffset, pinYOffset    (src/coloquinte.cpp)
+  Circuit::computePlacementArea, rowHeight, hpwl  (loops)       (src/coloquinte.cpp)
   isTurn                                                        (src/parameters.cpp, through
                                                                  gen.OrientTables' compiler)
+  std::numeric_limits<int>::max / min                           (values from libstdc++'s bodies)
 
 `Proofs/GeomTie.lean` proves each generated definition equal to the hand-written one in
-Model/Geom.lean / Model/Circuit.lean (`gen_<fn>_eq_model`), so a change of any of these bodies
-that changes their meaning stops `Properties/C09.lean` / `C15.lean` from compiling.
+Model/Geom.lean / Model/Circuit.lean (`gen_<fn>_eq_model`; the loops with INT_MAX / INT_MIN
+sentinels under an explicit int-range hypothesis), so a change of any of these bodies that changes
+their meaning stops the `Properties/C*.lean` that import it from compiling.
 
 This is a small compiler for exactly the constructs these bodies use today:
-  statements : `return e;`  `T v = e;` (never reassigned: there is no assignment statement)
-               `if (c) … [else …]` chains ending in returns, `assert(c);`
+  statements : `return e;`  `T v = e;`  `v = e;` / `v += e;` (-=, *=) on locals,
+               `if (c) … [else …]`, `assert(c);`, `throw …;` (the function then returns `Option`),
+               `continue;`, and loops over a WHOLE container of the representation map:
+               `for (T x : rows_)` and `for (int v = 0; v < nbNets() | nbPinsNet(net); ++v)`;
+               a loop becomes `List.foldl` of a named step function over the tuple of the outer
+               variables it assigns (see "statements" below)
   expressions: parameters/locals, fields of a Rectangle (`o.minX`, implicit `this->minX`),
                + - * and unary - on int / long long (C++ integers are Lean `Int`), < <= > >= == !=,
                && || !, ?:, std::max / std::min, *widening* integer casts, calls of other
                translated functions, `Rectangle(a, b, c, d)`, `vec_[index]` on the Circuit's
-               arrays through the representation map below.
+               arrays through the representation map below, `rows_.empty()`, `rows_[0]`,
+               `std::numeric_limits<int>::max()` / `min()`.
 Anything else raises TranslateError naming the function and the construct — never a default.
 
 Representation map (stated here, not derived): the C++ Circuit is a struct of arrays indexed by
@@ -31,6 +39,8 @@ field `cl.x` (…) of the cell `cl` the method is about; inside a per-pin method
 `(net, i)` is the record `p : Pin` (`pinXOffsets_[netLimits_[net] + i]` is `p.xo`, …) and
 `pinCell(net, i)` is the cell `cl` the pin sits on.  Every array the bodies may index is in
 CELL_ARRAYS / PIN_ARRAYS; an index expression outside these tables is a TranslateError.
+For the whole-circuit members see `circuit_env` (rows_ = `c.rows`, the CSR net arrays = `c.nets`
+with their `.pins`, sizes = list lengths, counters visit the lists in order).
 `assert(c)` is a precondition of the C++ function (out-of-range index); it is recorded in the
 generated docstring and does not contribute to the value.
 """
@@ -59,7 +69,7 @@ IDX = "Idx"   # type of a symbolic index (cell number, net number, pin number): 
 
 
 def kids(n):
-    return [c for c in (n.get("inner") or []) if isinstance(c, dict) and not c.get("kind", "").endswith("Comment")]
+    return [c for c in (n.get("inner") or []) if isinstance(c, dict) and c and not c.get("kind", "").endswith("Comment")]
 
 
 def ctype(n):
@@ -81,6 +91,15 @@ class Fn:
         self.this_calls = {}   # (method, (arg texts)) -> (lean text, type)     (calls on `this`)
         self.index = {}        # (array member, index text) -> (lean text, type)
         self.asserts = []
+        self.rel = None        # source file of the body (to read the spelling of qualified names)
+        self.params = []       # Lean binders of the generated definition: [(name, type)]
+        self.scope = []        # binders of the enclosing loops: [(name, type)]
+        self.containers = {}   # array member iterated / tested as a whole -> (lean list text, element type)
+        self.index_loops = {}  # (bound method, (arg texts)) of `for (int v = 0; v < bound(..); ++v)` ->
+        #                        (lean list text, element binder, element type, setup(f, v))
+        self.nloops = 0
+        self.aux = []          # step / loop definitions emitted before the function itself
+        self.uses_limits = set()
 
     def err(self, what):
         return TranslateError("%s: unsupported construct: %s" % (self.cname, what))
@@ -123,6 +142,11 @@ def expr(n, f, rect_methods):
         (c,) = kids(n)
         if ck in ("LValueToRValue", "NoOp"):
             return expr(c, f, rect_methods)
+        if ck in ("DerivedToBase", "UncheckedDerivedToBase") and ctype(n) == "coloquinte::Rectangle":
+            t, ty = expr(c, f, rect_methods)
+            if ty == "Row":
+                return t + ".rect", "Rect"
+            raise f.err("base-class conversion of a %s" % ty)
         if ck == "IntegralCast":
             src, dst = ctype(c), ctype(n)
             if src in INT_RANK and dst in INT_RANK and INT_RANK[src] <= INT_RANK[dst]:
@@ -206,6 +230,8 @@ def expr(n, f, rect_methods):
         ks = kids(n)
         callee = strip_callee(ks[0])
         ref = callee.get("referencedDecl", {})
+        if callee.get("kind") == "DeclRefExpr" and ref.get("kind") == "CXXMethodDecl":
+            return numeric_limit(callee, ks, f)
         if callee.get("kind") != "DeclRefExpr" or ref.get("kind") != "FunctionDecl":
             raise f.err("call through %s" % callee.get("kind"))
         name, sig = ref.get("name"), ref.get("type", {}).get("qualType", "")
@@ -227,12 +253,18 @@ def expr(n, f, rect_methods):
         (base,) = kids(callee)
         name = callee.get("name")
         args = [expr(a, f, rect_methods) for a in ks[1:]]
+        if base.get("kind") == "MemberExpr" and kids(base)[0].get("kind") == "CXXThisExpr" and base.get("name") in f.containers:
+            if name == "empty" and not args and ctype(n) == "bool":          # rows_.empty()
+                return "%s.isEmpty" % f.containers[base["name"]][0], "Bool"
+            raise f.err("call of `%s` on the container %s" % (name, base.get("name")))
         if base.get("kind") == "CXXThisExpr":
             key = (name, tuple(t for t, _ in args))
             if key not in f.this_calls:
                 raise f.err("call this->%s(%s)" % (name, ", ".join(key[1])))
             return f.this_calls[key]
         bt, bty = expr(base, f, rect_methods)
+        if bty == "Row" and name in rect_methods and not args:
+            bt, bty = bt + ".rect", "Rect"     # a Rectangle method called on a Row (its base-class subobject)
         if bty == "Rect" and name in rect_methods and not args:
             return "(%s %s)" % (rect_methods[name][0], bt), rect_methods[name][1]
         raise f.err("call of `%s` on a %s" % (name, bty))
@@ -245,6 +277,10 @@ def expr(n, f, rect_methods):
         base = strip_index(ks[1])
         if base.get("kind") != "MemberExpr" or kids(base)[0].get("kind") != "CXXThisExpr":
             raise f.err("operator[] on something other than an array member of *this")
+        lit = strip_index(ks[2])
+        if base.get("name") in f.containers and lit.get("kind") == "IntegerLiteral":
+            lst, ety = f.containers[base["name"]]            # rows_[0]: out of range is UB in C++, `default` here
+            return "(%s.getD %s default)" % (lst, lit.get("value")), ety
         it, ity = expr(strip_index(ks[2]), f, rect_methods)
         if ity != IDX:
             raise f.err("%s[…] indexed by a computed %s" % (base.get("name"), ity))
@@ -268,7 +304,74 @@ def expr(n, f, rect_methods):
     raise f.err("expression %s" % k)
 
 
+# ------------------------------------------------------------------ numeric_limits
+
+LIMITS = {"max": ("numeric_limits_int_max", "_ZNSt14numeric_limitsIiE3maxEv"),
+          "min": ("numeric_limits_int_min", "_ZNSt14numeric_limitsIiE3minEv")}
+
+
+def spelled(n, f):
+    """Source text of the expression n (it must lie in the function's own file, outside macros)."""
+    b, e = n.get("range", {}).get("begin", {}), n.get("range", {}).get("end", {})
+    if f.rel is None or "offset" not in b or "offset" not in e:
+        raise f.err("an expression whose spelling cannot be read back (macro?)")
+    return "".join(read(f.rel).encode()[b["offset"]:e["offset"] + e.get("tokLen", 1)].decode(errors="replace").split())
+
+
+def numeric_limit(callee, ks, f):
+    """`std::numeric_limits<int>::max()` / `min()`: a static member call with no argument.  The AST's
+    reference names only `max` / `int () noexcept`, so the qualification is read from the spelling
+    (it must be exactly `std::numeric_limits<int>::max`; generate() checks that no `coloquinte::std`
+    exists and takes the VALUE from the body of the libstdc++ specialisation clang resolved)."""
+    ref = callee.get("referencedDecl", {})
+    name = ref.get("name")
+    if name not in LIMITS or ref.get("type", {}).get("qualType") != "int () noexcept" or len(ks) != 1:
+        raise f.err("call of the member function `%s` (%s)" % (name, ref.get("type", {}).get("qualType")))
+    sp = spelled(callee, f)
+    if sp != "std::numeric_limits<int>::" + name:
+        raise f.err("call of `%s` (only std::numeric_limits<int>::max / min are constants I know)" % sp)
+    f.uses_limits.add(name)
+    return LIMITS[name][0], "Int"
+
+
+def limits_definitions(ctx):
+    """Lean constants for numeric_limits<int>::max()/min(), from the bodies of the specialisation."""
+    out = []
+    try:
+        clang_ast(CPP, "coloquinte::std")
+        raise TranslateError("a namespace / entity `coloquinte::std` exists: `std::numeric_limits` may not be the standard one")
+    except TranslateError as e:
+        if not str(e).startswith("no AST"):
+            raise
+    for name, (lean, mangled) in LIMITS.items():
+        objs = clang_ast(CPP, "std::numeric_limits<int>::" + name)
+        ds = [o for o in objs if o.get("kind") == "CXXMethodDecl" and o.get("name") == name and o.get("mangledName") == mangled]
+        if len(ds) != 1 or ds[0].get("storageClass") != "static" or ds[0].get("type", {}).get("qualType") != "int () noexcept":
+            raise TranslateError("std::numeric_limits<int>::%s: expected one static `int () noexcept`, found %d" % (name, len(ds)))
+        body = [c for c in kids(ds[0]) if c.get("kind") == "CompoundStmt"]
+        f = Fn(ctx, "std::numeric_limits<int>::" + name, lean)
+        if len(body) != 1 or len(kids(body[0])) != 1 or kids(body[0])[0].get("kind") != "ReturnStmt":
+            raise f.err("a body that is not a single return")
+        t, ty = expr(kids(kids(body[0])[0])[0], f, {})
+        if ty != "Int":
+            raise f.err("a %s value" % ty)
+        out.append("/-- `std::numeric_limits<int>::%s()` as libstdc++ defines it for this compiler -/\ndef %s : Int :=\n  %s\n" % (
+            name, lean, t))
+    return out
+
+
 # ------------------------------------------------------------------ statements
+#
+# A statement list is compiled against a symbolic store (f.vars: variable -> Lean text of its current
+# value) into a tree
+#   ("ret", text, type) | ("throw",) | ("continue", store) | ("fall", store)        leaves
+#   ("ite", cond, T, E) | ("bind", loop call, binder, T)                            inner nodes
+# ("fall" = control reaches the end of the list).  A loop becomes two named definitions,
+#   <fn>_step<k> <free binders> (a<k> : accumulators) (element) : accumulators
+#   <fn>_loop<k> <free binders> : accumulators := List.foldl (<fn>_step<k> …) (initial values) container
+# where the accumulators are the variables declared outside the loop and assigned inside it, in order
+# of first assignment (a tuple; `Unit` if there is none).  If the body can `throw`, both work on
+# `Option accumulators` (`none` = thrown) and what follows the loop sits under a `match`.
 
 def assert_condition(s):
     """The text of `c` if s is glibc's expansion of `assert(c)`, else None."""
@@ -294,70 +397,355 @@ def stmts_of(n):
     return kids(n) if n.get("kind") == "CompoundStmt" else [n]
 
 
-def compile_stmts(stmts, f, rect_methods, rest=None):
-    """Decision tree ("ret", text, ty) | ("ite", cond, T, E) | None (falls off the end)."""
+VALUE_TYPES = ("Int", "Bool", "Orient", "Polarity", "Rect")
+
+
+def graft(t, cont):
+    """Replace every ("fall", store) leaf of t by cont(store)."""
+    if t[0] == "fall":
+        return cont(t[1])
+    if t[0] == "ite":
+        return ("ite", t[1], graft(t[2], cont), graft(t[3], cont))
+    if t[0] == "bind":
+        return ("bind", t[1], t[2], graft(t[3], cont))
+    return t
+
+
+def restrict(t, names):
+    """Leaving a block: the variables declared inside it go out of scope."""
+    if t[0] in ("fall", "continue"):
+        return (t[0], {k: v for k, v in t[1].items() if k in names})
+    if t[0] == "ite":
+        return ("ite", t[1], restrict(t[2], names), restrict(t[3], names))
+    if t[0] == "bind":
+        return ("bind", t[1], t[2], restrict(t[3], names))
+    return t
+
+
+def leaves(t):
+    if t[0] == "ite":
+        yield from leaves(t[2])
+        yield from leaves(t[3])
+    elif t[0] == "bind":
+        yield t
+        yield from leaves(t[3])
+    else:
+        yield t
+
+
+def compile_stmts(stmts, f, rm, depth=0):
     if not stmts:
-        return rest
-    s, tail = stmts[0], stmts[1:]
+        return ("fall", dict(f.vars))
+    first = compile_stmt(stmts[0], f, rm, depth)
+
+    def cont(store):
+        f.vars = dict(store)
+        return compile_stmts(stmts[1:], f, rm, depth)
+    return graft(first, cont)
+
+
+def local_target(n, f):
+    while n.get("kind") == "ParenExpr":
+        n = kids(n)[0]
+    ref = n.get("referencedDecl", {})
+    if n.get("kind") != "DeclRefExpr" or ref.get("kind") != "VarDecl" or ref.get("name") not in f.vars:
+        raise f.err("assignment to something other than a local variable")
+    name = ref["name"]
+    if f.vars[name][1] not in VALUE_TYPES or LEAN_TY.get(ctype(n)) != f.vars[name][1]:
+        raise f.err("assignment to `%s` (a %s)" % (name, f.vars[name][1]))
+    return name
+
+
+def compile_stmt(s, f, rm, depth):
     k = s.get("kind")
+    if k in ("ExprWithCleanups",) and len(kids(s)) == 1:
+        return compile_stmt(kids(s)[0], f, rm, depth)
     if k == "ReturnStmt":
         ks = kids(s)
         if len(ks) != 1:
             raise f.err("return without a value")
-        t, ty = expr(ks[0], f, rect_methods)
+        if depth:
+            raise f.err("return inside a loop")
+        t, ty = expr(ks[0], f, rm)
         return ("ret", t, ty)
+    if k == "CXXThrowExpr":
+        return ("throw",)
+    if k == "ContinueStmt":
+        if not depth:
+            raise f.err("continue outside a loop")
+        return ("continue", dict(f.vars))
     if k == "CompoundStmt":
-        return compile_stmts(kids(s) + tail, f, rect_methods, rest)
+        outer = set(f.vars)
+        return restrict(compile_stmts(kids(s), f, rm, depth), outer)
     if k == "NullStmt":
-        return compile_stmts(tail, f, rect_methods, rest)
+        return ("fall", dict(f.vars))
     if k == "DeclStmt":
         for d in kids(s):
             if d.get("kind") != "VarDecl" or len(kids(d)) != 1 or d.get("name") in f.vars:
                 raise f.err("declaration `%s`" % d.get("name"))
-            t, ty = expr(kids(d)[0], f, rect_methods)
+            t, ty = expr(kids(d)[0], f, rm)
             want = LEAN_TY.get(ctype(d))
             if ty != IDX and want != ty:
                 raise f.err("local `%s` of type %s initialised with a %s" % (d.get("name"), ctype(d), ty))
-            f.vars[d["name"]] = (t, ty)   # single assignment: no assignment statement is accepted below
-        return compile_stmts(tail, f, rect_methods, rest)
+            f.vars[d["name"]] = (t, ty)
+        return ("fall", dict(f.vars))
+    if k == "BinaryOperator" and s.get("opcode") == "=":
+        lhs, rhs = kids(s)
+        name = local_target(lhs, f)
+        t, ty = expr(rhs, f, rm)
+        if ty != f.vars[name][1]:
+            raise f.err("`%s = …` with a %s" % (name, ty))
+        f.vars[name] = (t, ty)
+        return ("fall", dict(f.vars))
+    if k == "CompoundAssignOperator":
+        lhs, rhs = kids(s)
+        name = local_target(lhs, f)
+        op = (s.get("opcode") or "")[:-1]
+        lt = ctype(lhs)
+        if op not in ARITH or f.vars[name][1] != "Int" or lt not in INT_RANK or \
+                s.get("computeLHSType", {}).get("qualType") != lt or s.get("computeResultType", {}).get("qualType") != lt:
+            raise f.err("`%s %s …` (computed in %s, stored in %s)" % (name, s.get("opcode"),
+                                                                     s.get("computeLHSType", {}).get("qualType"), lt))
+        t, ty = expr(rhs, f, rm)
+        if ty != "Int":
+            raise f.err("`%s %s` a %s" % (name, s.get("opcode"), ty))
+        f.vars[name] = ("(%s %s %s)" % (f.vars[name][0], ARITH[op], t), "Int")
+        return ("fall", dict(f.vars))
     if k == "IfStmt":
         ks = kids(s)
         if s.get("hasInit") or s.get("hasVar") or len(ks) not in (2, 3):
             raise f.err("if statement with an initialiser / declaration")
-        ct, cty = expr(ks[0], f, rect_methods)
+        ct, cty = expr(ks[0], f, rm)
         if cty != "Bool":
             raise f.err("if on a %s" % cty)
         saved = dict(f.vars)
-        after = compile_stmts(tail, f, rect_methods, rest)
+        outer = set(saved)
+        then_t = restrict(compile_stmts(stmts_of(ks[1]), f, rm, depth), outer)
         f.vars = dict(saved)
-        then_t = compile_stmts(stmts_of(ks[1]), f, rect_methods, after)
+        else_t = restrict(compile_stmts(stmts_of(ks[2]), f, rm, depth), outer) if len(ks) == 3 else ("fall", dict(saved))
         f.vars = dict(saved)
-        else_t = compile_stmts(stmts_of(ks[2]), f, rect_methods, after) if len(ks) == 3 else after
-        f.vars = saved
         return ("ite", ct, then_t, else_t)
+    if k in ("ForStmt", "CXXForRangeStmt"):
+        return compile_loop(s, f, rm, depth)
     cond = assert_condition(s)
     if cond is not None:
         f.asserts.append(cond)
-        return compile_stmts(tail, f, rect_methods, rest)
+        return ("fall", dict(f.vars))
     raise f.err("statement %s" % k)
 
 
+# ------------------------------------------------------------------ loops
+
+def assigned_names(n, acc):
+    """Names of the variables assigned anywhere below n, in order of first assignment."""
+    k = n.get("kind")
+    tgt = None
+    if (k == "BinaryOperator" and n.get("opcode") == "=") or k == "CompoundAssignOperator":
+        tgt = kids(n)[0]
+    elif k == "UnaryOperator" and n.get("opcode") in ("++", "--"):
+        tgt = kids(n)[0]
+    if tgt is not None:
+        while tgt.get("kind") == "ParenExpr":
+            tgt = kids(tgt)[0]
+        nm = tgt.get("referencedDecl", {}).get("name") if tgt.get("kind") == "DeclRefExpr" else None
+        if nm is not None and nm not in acc:
+            acc.append(nm)
+    for c in kids(n):
+        assigned_names(c, acc)
+    return acc
+
+
+def proj(b, i, n):
+    if n == 1:
+        return b
+    return b + ".2" * i + (".1" if i < n - 1 else "")
+
+
+def loop_header(s, f, rm):
+    """(lean list, element binder, element type, body, bind(f)) of a loop over a whole container."""
+    ks = kids(s)
+    if s.get("kind") == "CXXForRangeStmt":
+        if len(ks) != 7:
+            raise f.err("range-for with an init statement")
+        rng, var, body = ks[0], ks[5], ks[6]
+        rd = kids(rng)[0] if kids(rng) else {}
+        src = kids(rd)[0] if kids(rd) else {}
+        while src.get("kind") in TRANSPARENT or src.get("kind") == "ImplicitCastExpr":
+            src = kids(src)[0]
+        if src.get("kind") != "MemberExpr" or kids(src)[0].get("kind") != "CXXThisExpr" or src.get("name") not in f.containers:
+            raise f.err("range-for over something other than a known container member")
+        lst, ety = f.containers[src["name"]]
+        vd = kids(var)[0]
+        vname, vty = vd.get("name"), ctype(vd)
+        if vname in f.vars:
+            raise f.err("loop variable `%s` shadows a variable" % vname)
+        binder = vname + "_"
+        # the element as the loop variable sees it: `Rectangle row : rows_` copies the base-class subobject
+        if (ety, vty) == ("Row", "coloquinte::Rectangle"):
+            val = (binder + ".rect", "Rect")
+        elif (ety, vty) == ("Row", "coloquinte::Row"):
+            val = (binder, "Row")
+        else:
+            raise f.err("range-for variable of type %s over a list of %s" % (vty, ety))
+        init = kids(vd)[0] if kids(vd) else {}
+        seen = [x.get("kind") for x in _walk(init)]
+        if any(x in seen for x in ("CallExpr", "CXXMemberCallExpr", "BinaryOperator")) or seen.count("CXXOperatorCallExpr") != 1:
+            raise f.err("range-for variable initialised by something other than a copy of / reference to *it")
+
+        def bind(f):
+            f.vars[vname] = val
+        return lst, binder, ety, body, bind
+    # for (int v = 0; v < bound(...); ++v)
+    if len(ks) != 4:
+        raise f.err("for statement with a missing / extra clause")
+    init, cond, inc, body = ks
+    vd = kids(init)[0] if init.get("kind") == "DeclStmt" and len(kids(init)) == 1 else {}
+    v = vd.get("name")
+    z = kids(vd)[0] if kids(vd) else {}
+    if vd.get("kind") != "VarDecl" or ctype(vd) != "int" or z.get("kind") != "IntegerLiteral" or z.get("value") != "0" or v in f.vars:
+        raise f.err("for loop that does not start with `int v = 0`")
+
+    def is_v(n):
+        while n.get("kind") in TRANSPARENT or n.get("kind") == "ImplicitCastExpr":
+            n = kids(n)[0]
+        return n.get("kind") == "DeclRefExpr" and n.get("referencedDecl", {}).get("name") == v
+    if inc.get("kind") != "UnaryOperator" or inc.get("opcode") != "++" or not is_v(kids(inc)[0]):
+        raise f.err("for loop whose step is not `++%s`" % v)
+    if cond.get("kind") != "BinaryOperator" or cond.get("opcode") != "<" or not is_v(kids(cond)[0]):
+        raise f.err("for loop whose condition is not `%s < bound`" % v)
+    bound = kids(cond)[1]
+    while bound.get("kind") in TRANSPARENT or bound.get("kind") == "ImplicitCastExpr":
+        bound = kids(bound)[0]
+    if bound.get("kind") != "CXXMemberCallExpr":
+        raise f.err("for loop bound that is not a size accessor of *this")
+    callee = strip_callee(kids(bound)[0])
+    if callee.get("kind") != "MemberExpr" or kids(callee)[0].get("kind") != "CXXThisExpr":
+        raise f.err("for loop bound that is not a size accessor of *this")
+    key = (callee.get("name"), tuple(expr(a, f, rm)[0] for a in kids(bound)[1:]))
+    if key not in f.index_loops:
+        raise f.err("for loop up to %s(%s) (not a container size in the representation map)" % (key[0], ", ".join(key[1])))
+    lst, binder, ety, setup = f.index_loops[key]
+    if v in assigned_names(body, []):
+        raise f.err("loop counter `%s` modified in the body" % v)
+
+    def bind(f):
+        f.vars[v] = (v, IDX)
+        setup(f, v)
+    return lst, binder, ety, body, bind
+
+
+def _walk(n):
+    yield n
+    for c in kids(n):
+        yield from _walk(c)
+
+
+def used(binders, *texts):
+    import re
+    return [(b, t) for b, t in binders if any(re.search(r"(?<![\w.])%s(?![\w])" % re.escape(b), x) for x in texts)]
+
+
+def emit_body(t, ind, acc, opt, f):
+    pad = "  " * ind
+    if t[0] in ("fall", "continue"):
+        vals = [t[1][a][0] for a in acc]
+        tup = "()" if not vals else (vals[0] if len(vals) == 1 else "(" + ", ".join(vals) + ")")
+        return pad + ("(some %s)" % tup if opt else tup)
+    if t[0] == "throw":
+        return pad + "none"
+    if t[0] == "ite":
+        return "%sif %s then\n%s\n%selse\n%s" % (pad, t[1], emit_body(t[2], ind + 1, acc, opt, f), pad,
+                                                 emit_body(t[3], ind + 1, acc, opt, f))
+    raise f.err("a throwing loop / return inside a loop body")
+
+
+def compile_loop(s, f, rm, depth):
+    saved = (dict(f.vars), dict(f.this_calls), dict(f.index), dict(f.index_loops), list(f.scope))
+    lst, binder, ety, body, bind = loop_header(s, f, rm)
+    f.nloops += 1
+    k = f.nloops
+    acc = [a for a in assigned_names(body, []) if a in saved[0]]
+    for a in acc:
+        if saved[0][a][1] not in VALUE_TYPES:
+            raise f.err("loop modifies `%s` (a %s)" % (a, saved[0][a][1]))
+    tys = [saved[0][a][1] for a in acc]
+    tupty = "Unit" if not acc else " × ".join(tys)
+    init = [saved[0][a][0] for a in acc]
+    ab = "a%d" % k
+    if any(b == binder for b, _ in f.params + f.scope):
+        raise f.err("nested loops over the same kind of element (`%s`)" % binder)
+    for i, a in enumerate(acc):
+        f.vars[a] = (proj(ab, i, len(acc)), tys[i])
+    bind(f)
+    inner_scope = f.params + f.scope
+    f.scope = f.scope + [(ab, tupty), (binder, ety)]
+    tree = restrict(compile_stmts(stmts_of(body), f, rm, depth + 1), set(saved[0]))
+    kinds = set(x[0] for x in leaves(tree))
+    if "bind" in kinds or "ret" in kinds:
+        raise f.err("a throwing loop / return inside a loop body")
+    opt = "throw" in kinds
+    if opt and depth:
+        raise f.err("throw inside a nested loop")
+    f.vars, f.this_calls, f.index, f.index_loops, f.scope = saved
+    body_src = emit_body(tree, 2 if opt else 1, acc, opt, f)
+    inits = "()" if not acc else (init[0] if len(acc) == 1 else "(" + ", ".join(init) + ")")
+    free_step = used(inner_scope, body_src)
+    free_loop = used(inner_scope, body_src, inits, lst)
+    step, loop = "%s_step%d" % (f.lean_name, k), "%s_loop%d" % (f.lean_name, k)
+    sig = lambda bs: "".join(" (%s : %s)" % b for b in bs)   # noqa: E731
+    args = lambda bs: "".join(" " + b for b, _ in bs)         # noqa: E731
+    sty = "Option (%s)" % tupty if opt else tupty
+    if opt:
+        f.aux.append("/-- body of loop %d of `%s` (`none` = an exception was thrown) -/\ndef %s%s (st : %s) (%s : %s) : %s :=\n"
+                     "  match st with\n  | none => none\n  | some %s =>\n%s\n" % (
+                         k, f.cname, step, sig(free_step), sty, binder, ety, sty, ab if acc else "_", body_src))
+    else:
+        f.aux.append("/-- body of loop %d of `%s` -/\ndef %s%s (%s : %s) (%s : %s) : %s :=\n%s\n" % (
+            k, f.cname, step, sig(free_step), ab if acc else "_", tupty, binder, ety, sty, body_src))
+    f.aux.append("/-- loop %d of `%s`: over `%s`, accumulating (%s) -/\ndef %s%s : %s :=\n  List.foldl (%s%s) %s %s\n" % (
+        k, f.cname, lst, ", ".join(acc) or "nothing", loop, sig(free_loop), sty, step, args(free_step),
+        "(some %s)" % inits if opt else inits, lst))
+    call = "(%s%s)" % (loop, args(free_loop)) if free_loop else loop
+    res = "r%d" % k if opt else call
+    for i, a in enumerate(acc):
+        f.vars[a] = (proj(res, i, len(acc)), tys[i])
+    if opt:
+        return ("bind", call, res if acc else "_", ("fall", dict(f.vars)))
+    return ("fall", dict(f.vars))
+
+
+# ------------------------------------------------------------------ finishing a function
+
 def tree_type(t, f):
-    if t is None:
+    if t[0] == "fall":
         raise f.err("a path that falls off the end without returning")
+    if t[0] == "continue":
+        raise f.err("continue outside a loop")
+    if t[0] == "throw":
+        return None
     if t[0] == "ret":
         return t[2]
+    if t[0] == "bind":
+        return tree_type(t[3], f)
     a, b = tree_type(t[2], f), tree_type(t[3], f)
-    if a != b:
+    if a is not None and b is not None and a != b:
         raise f.err("returns of different types %s / %s" % (a, b))
-    return a
+    return a if a is not None else b
 
 
-def emit(t, ind):
+def throws(t):
+    return any(x[0] in ("throw", "bind") for x in leaves(t))
+
+
+def emit(t, ind, opt=False):
     pad = "  " * ind
     if t[0] == "ret":
-        return pad + t[1]
-    return "%sif %s then\n%s\n%selse\n%s" % (pad, t[1], emit(t[2], ind + 1), pad, emit(t[3], ind + 1))
+        return pad + ("(some %s)" % t[1] if opt else t[1])
+    if t[0] == "throw":
+        return pad + "none"
+    if t[0] == "bind":
+        return "%smatch %s with\n%s| none => none\n%s| some %s =>\n%s" % (pad, t[1], pad, pad, t[2], emit(t[3], ind + 2, opt))
+    return "%sif %s then\n%s\n%selse\n%s" % (pad, t[1], emit(t[2], ind + 1, opt), pad, emit(t[3], ind + 1, opt))
 
 
 # ------------------------------------------------------------------ locating definitions
@@ -532,7 +920,7 @@ def circuit_pin_cell(ctx, out):
     out.table.append(("(shape check only)", cname, loc, digest(text)))
 
 
-def circuit_pin_method(ctx, out, name, cell_methods, rect_methods):
+def circuit_pin_method(ctx, out, name, cell_methods, rect_methods, pin_methods):
     cname, lean_name = "Circuit::" + name, "Circuit_" + name
     decl, body, loc, text = definition(CPP, "coloquinte::Circuit::" + name, name, "10coloquinte7Circuit")
     f = Fn(ctx, cname, lean_name)
@@ -551,6 +939,55 @@ def circuit_pin_method(ctx, out, name, cell_methods, rect_methods):
         raise f.err("return type %s but the body yields %s" % (ret_of(decl), ty))
     out.add(lean_name, cname, loc, text, "%s\ndef %s (cl : Cell) (p : Pin) : %s :=\n%s\n" % (
         doc(cname, loc, f, " for the pin `p` sitting on the cell `cl`"), lean_name, ty, emit(tree, 1)))
+    pin_methods[name] = (lean_name, ty)
+
+
+# ------------------------------------------------------------------ Circuit: whole-circuit members (loops)
+# Representation map, continued: `rows_` is the list `c.rows` (a `Row` is its Rectangle base `.rect` plus the
+# orientation); the CSR arrays netLimits_/pinCells_/pin?Offsets_ are the list `c.nets` of `Net` records with their
+# lists `.pins` of `Pin` records, so nbRows() / nbNets() / nbPinsNet(net) are the lengths of those lists, a counter
+# running from 0 to one of them visits the list's elements in order, and pinCell(net, pin) is the record
+# `c.cell p.cell` (the model's total lookup; the C++ validates pin cells when nets are added).
+
+def circuit_env(f, cell_methods, pin_methods):
+    f.params = [("c", "Circuit")]
+    f.containers = {"rows_": ("c.rows", "Row")}
+    f.this_calls[("nbRows", ())] = ("((c.rows.length : Nat) : Int)", "Int")
+    f.this_calls[("nbNets", ())] = ("((c.nets.length : Nat) : Int)", "Int")
+
+    def setup_net(f, net):
+        f.this_calls[("nbPinsNet", (net,))] = ("((n.pins.length : Nat) : Int)", "Int")
+
+        def setup_pin(f, pin):
+            tok = "pinCell(%s,%s)" % (net, pin)
+            f.this_calls[("pinCell", (net, pin))] = (tok, IDX)
+            for arr, (fld, ty) in CELL_ARRAYS.items():
+                f.index[(arr, tok)] = ("(c.cell p.cell).%s" % fld, ty)
+            for m, (ln, ty) in cell_methods.items():
+                f.this_calls[(m, (tok,))] = ("(%s (c.cell p.cell))" % ln, ty)
+            for m, (ln, ty) in pin_methods.items():
+                f.this_calls[(m, (net, pin))] = ("(%s (c.cell p.cell) p)" % ln, ty)
+        f.index_loops[("nbPinsNet", (net,))] = ("n.pins", "p", "Pin", setup_pin)
+    f.index_loops[("nbNets", ())] = ("c.nets", "n", "Net", setup_net)
+
+
+def circuit_whole_method(ctx, out, name, cell_methods, pin_methods, rect_methods):
+    cname, lean_name = "Circuit::" + name, "Circuit_" + name
+    decl, body, loc, text = definition(CPP, "coloquinte::Circuit::" + name, name, "10coloquinte7Circuit")
+    f = Fn(ctx, cname, lean_name)
+    f.rel = CPP
+    if params_of(decl):
+        raise f.err("signature %s (expected no parameter)" % decl.get("type", {}).get("qualType"))
+    circuit_env(f, cell_methods, pin_methods)
+    tree = compile_stmts(kids(body), f, rect_methods)
+    ty = tree_type(tree, f)
+    if ty is None or LEAN_TY.get(ret_of(decl)) != ty:
+        raise f.err("return type %s but the body yields %s" % (ret_of(decl), ty))
+    opt = throws(tree)
+    out.add(lean_name, cname, loc, text, "%s%s\ndef %s (c : Circuit) : %s :=\n%s\n" % (
+        "".join(a + "\n" for a in f.aux), doc(cname, loc, f, " of the circuit `c`" + ("; `none` = throws" if opt else "")),
+        lean_name, "Option %s" % ty if opt else ty, emit(tree, 1, opt)))
+    return f.uses_limits
 
 
 # ------------------------------------------------------------------ driver
@@ -559,6 +996,7 @@ RECT_METHODS = ["width", "height", "area", "intersects", "contains", "intersecti
 CELL_METHODS = [(HPP, "x"), (HPP, "y"), (HPP, "orientation"), (HPP, "isFixed"), (HPP, "isObstruction"),
                 (HPP, "area"), (CPP, "placedWidth"), (CPP, "placedHeight"), (HPP, "placement")]
 PIN_METHODS = ["pinXOffset", "pinYOffset"]
+WHOLE_METHODS = ["computePlacementArea", "rowHeight", "hpwl"]
 
 
 def prefetch():
@@ -566,7 +1004,8 @@ def prefetch():
     jobs = [(HPP, "coloquinte::Rectangle"), (HPP, "coloquinte::Rectangle::Rectangle"), (HPP, "coloquinte::Circuit::pinCell")]
     jobs += [(HPP, "coloquinte::Rectangle::" + m) for m in RECT_METHODS]
     jobs += [(rel, "coloquinte::Circuit::" + m) for rel, m in CELL_METHODS]
-    jobs += [(CPP, "coloquinte::Circuit::" + m) for m in PIN_METHODS]
+    jobs += [(CPP, "coloquinte::Circuit::" + m) for m in PIN_METHODS + WHOLE_METHODS]
+    jobs += [(CPP, "coloquinte::std"), (CPP, "std::numeric_limits<int>::max"), (CPP, "std::numeric_limits<int>::min")]
     cache = {}
 
     def one(j):
@@ -614,8 +1053,13 @@ def generate():
         for rel, m in CELL_METHODS:
             circuit_cell_method(ctx, out, rel, m, cell_methods, rect_methods)
         circuit_pin_cell(ctx, out)
+        pin_methods = {}
         for m in PIN_METHODS:
-            circuit_pin_method(ctx, out, m, cell_methods, rect_methods)
+            circuit_pin_method(ctx, out, m, cell_methods, rect_methods, pin_methods)
+        for src in limits_definitions(ctx):
+            out.lean.append(src)
+        for m in WHOLE_METHODS:
+            circuit_whole_method(ctx, out, m, cell_methods, pin_methods, rect_methods)
     finally:
         _cache = {}
     head = ("import ColoVerif.Model.Circuit\n/-\nThe shared geometry layer regenerated from the C++ function bodies (tie T).\n"
